@@ -812,18 +812,28 @@ def render(M, C, origin="current tree"):
             return "(.modeOr %d)" % t[1]
         raise ValueError(t)
 
-    def chunked(items):
-        return "#[" + ",\n  ".join("#[" + ", ".join(items[i:i + 32]) + "]" for i in range(0, len(items), 32)) + "]"
-    o.append("/-- node n = nodeChunks[n / 32][n % 32];  ⟨function, event, successors⟩.  First node of each function:")
-    o.append("    " + ", ".join("%s=%d" % (n, e) for n, e in zip(M.slice, M.entries_of)) + " -/")
-    o.append("abbrev nodeChunks : Array (Array Node) := " + chunked(["⟨%d, %s, %s⟩" % (fn, op(t), _lnat_list(succ)) for fn, t, succ in M.nodes]) + "\n")
-    o.append("abbrev graph : Graph := ⟨%d, chunkGet nodeChunks ⟨0, .nop, []⟩, fun f => fnEntry.getD f 0, entryFns⟩\n" % len(M.nodes))
-    o.append("-- functions whose open(2) flags variable is tracked: %s; untracked (mode 3 = both capabilities required): %s" % (M.mode_tracked, M.mode_untracked))
-    o.append("/-- UNTRUSTED certificate (checked by `certOK`) -/")
-    o.append("abbrev certK : Array (Array (List Case)) := " + chunked(["[" + ", ".join("(%d, %s)" % (m, _lnat_list(k)) for m, k in cs) + "]" for cs in C.K]) + "\n")
-    o.append("abbrev certPre : Array (List Nat) := #[" + ", ".join(_lnat_list(k) for k in C.fpre) + "]\n")
-    o.append("abbrev certPost : Array (List Nat) := #[" + ", ".join(_lnat_list(k) for k in C.post) + "]\n")
-    o.append("abbrev certPure : Array Bool := #[" + ", ".join("true" if p else "false" for p in C.pure) + "]\n")
-    o.append("abbrev cert : Cert := ⟨chunkGet certK [], fun f => certPre.getD f [], fun f => certPost.getD f [], fun f => certPure.getD f false⟩\n")
+    def bst(items, lo, hi, ind):
+        """balanced decision tree on the index `n` (the kernel compares Nat literals natively: ~10 steps per lookup)"""
+        if hi - lo == 1:
+            return items[lo]
+        mid = (lo + hi) // 2
+        pad = " " * ind
+        return "if n < %d then\n%s%s\n%selse\n%s%s" % (mid, pad + "  ", bst(items, lo, mid, ind + 2), pad, pad + "  ", bst(items, mid, hi, ind + 2))
+
+    def table(name, ty, items, default, doc):
+        o.append("/-- %s -/" % doc)
+        o.append("def %s (n : Nat) : %s :=\n  if n < %d then\n    %s\n  else %s\n" % (name, ty, len(items), bst(items, 0, len(items), 4), default))
+    o.append("-- first node of each function: " + ", ".join("%s=%d" % (n, e) for n, e in zip(M.slice, M.entries_of)))
+    table("nodeAt", "Node", ["⟨%d, %s, %s⟩" % (fn, op(t), _lnat_list(succ)) for fn, t, succ in M.nodes], "⟨0, .nop, []⟩",
+          "node n = ⟨function, event, successors⟩ (decision tree on n)")
+    table("fnEntryAt", "Nat", [str(e) for e in M.entries_of], "0", "entry node of function n")
+    o.append("abbrev graph : Graph := ⟨%d, nodeAt, fnEntryAt, entryFns⟩\n" % len(M.nodes))
+    o.append("-- functions whose open(2) flags / fopen mode variable is tracked: %s; untracked (mode 3 = both capabilities required): %s" % (M.mode_tracked, M.mode_untracked))
+    table("certK", "List Case", ["[" + ", ".join("(%d, %s)" % (m, _lnat_list(k)) for m, k in cs) + "]" for cs in C.K], "[]",
+          "UNTRUSTED certificate (checked by `certOK`): cases known on entry to node n")
+    table("certPre", "List Nat", [_lnat_list(k) for k in C.fpre], "[]", "untrusted: precondition of function n")
+    table("certPost", "List Nat", [_lnat_list(k) for k in C.post], "[]", "untrusted: postcondition of function n")
+    table("certPure", "Bool", ["true" if p_ else "false" for p_ in C.pure], "false", "untrusted: function n never changes the flag word")
+    o.append("abbrev cert : Cert := ⟨certK, certPre, certPost, certPure⟩\n")
     o.append("end JanetModel.Gen.Sandbox")
     return "\n".join(o) + "\n"
